@@ -114,6 +114,23 @@ def lean_sources():
             if f.endswith(".lean"): res.append(os.path.join(root, f))
     return sorted(res)
 
+def module_file(mod):
+    return os.path.join(LEAN, *mod.split(".")) + ".lean"
+
+def import_closure(modules):
+    """Lean source files of `modules` and of everything of this project they import, transitively."""
+    seen, todo = {}, list(modules)
+    while todo:
+        m = todo.pop()
+        if m in seen: continue
+        f = module_file(m)
+        if not os.path.exists(f): continue
+        seen[m] = f
+        for line in open(f):
+            mm = re.match(r"\s*(?:public\s+)?import\s+((?:Gozod|Drv)\.[A-Za-z0-9_.]+)", line)
+            if mm: todo.append(mm.group(1))
+    return sorted(seen.values())
+
 def audit_axioms(modules, theorems):
     """#print axioms for every named theorem; returns {thm: [axioms]} and the raw output."""
     os.makedirs(BUILD, exist_ok=True)
@@ -223,7 +240,10 @@ def prove(res, modules, theorems, driver=True):
     if not ok:
         cov["discharged"] = 0
         return False, "lake build failed:\n" + out[-4000:]
-    hits = grep_forbidden(lean_sources())
+    # only the sources this property's theorems and driver depend on (another property's work in
+    # progress must not break this check)
+    roots = list(modules) + (["Drv." + res.prop] if driver else [])
+    hits = grep_forbidden(import_closure(roots))
     if hits:
         cov["discharged"] = 0
         return False, "forbidden tokens in Lean sources:\n" + "\n".join(hits)
